@@ -20,14 +20,21 @@ from .edit import classify_gap, corpus_text, CORPUS, _trim
 PROPS = ("C03", "C04")
 
 KEYS = ["TITLE", "ARTIST", "BPMS", "STOPS", "FREEZES", "ATTACKS", "DISPLAYBPM", "BGCHANGES",
-        "ANIMATIONS", "OFFSET", "CREDIT", "X", "FOO", "MUSIC", "BANNER"]
+        "ANIMATIONS", "OFFSET", "CREDIT", "X", "FOO", "MUSIC", "BANNER", "NOTES2", "VERSION2",
+        "XVERSION", "ATTACKS2", "ATTAC\u212aS"]
 CHART_KEYS = ["STEPSTYPE", "DESCRIPTION", "DIFFICULTY", "METER", "RADARVALUES", "CREDIT", "ATTACKS",
-              "DISPLAYBPM", "BPMS", "CHARTNAME", "X"]
+              "DISPLAYBPM", "BPMS", "CHARTNAME", "X", "NOTESKIN", "NOTES3", "NOTESCOUNT", "XNOTES",
+              "NOTEDATA2"]
 
 
 # ------------------------------------------------------------------ generate
 def _case(rng, k):
     r = rng.random()
+    if rng.random() < 0.04:
+        # letter-case variants outside ASCII: characters whose upper() is an ASCII letter
+        # (dotless i -> I, long s -> S); keys are upper-cased with str.upper()
+        k = "".join({"I": "\u0131", "S": "\u017f"}.get(c, c) if rng.random() < 0.5 else c for c in k)
+        return k if rng.random() < 0.5 else k.lower()
     if r < 0.6:
         return k
     if r < 0.8:
@@ -112,6 +119,9 @@ def gen_msd_text(rng, fmt=None):
                    "\u2028", "\r", " " + nl + " "]
             comps = [rng.choice(pad if rng.random() < 0.3 else pad[:3]) + _val(rng).replace("#", "") +
                      rng.choice(pad if rng.random() < 0.3 else ["", " ", nl]) for _ in range(n)]
+            if n >= 6 and rng.random() < 0.02:
+                comps[5] = nl + gen.esc(gen.gen_dense_string(rng, rng.choice([9000, 26000, 70000]))
+                                        .replace("\r", "")) + nl
             param(_case(rng, "NOTES"), comps, keyonly=(n == 0 and rng.random() < 0.5))
         else:
             param(_case(rng, "NOTEDATA"), [""], keyonly=rng.random() < 0.1)
@@ -123,7 +133,10 @@ def gen_msd_text(rng, fmt=None):
                 else:
                     param(_case(rng, k), [_val(rng) for _ in range(rng.choice([1, 1, 1, 2, 3]))])
             if rng.random() < 0.9:
-                param(_case(rng, rng.choice(["NOTES", "NOTES", "NOTES2"])), [_val(rng)])
+                nv = _val(rng)
+                if rng.random() < 0.02:
+                    nv = gen.esc(gen.gen_dense_string(rng, rng.choice([9000, 26000, 70000])))
+                param(_case(rng, rng.choice(["NOTES", "NOTES", "NOTES2"])), [nv])
             # parameters after the chart's note data
             if rng.random() < 0.3:
                 param(_case(rng, rng.choice(CHART_KEYS + KEYS)), [_val(rng)])
